@@ -374,6 +374,38 @@ func locations(c *caseT, docIdx int, n int, rec *recorder) string {
 	return strings.Join(out, ",")
 }
 
+// ---------- ambient history ----------
+
+// Every property is stated for any history of earlier calls.  Before each case the worker therefore makes a few
+// unrelated calls that must not matter: Parse calls failing at different actions (also while a filter operand is half
+// built), a Parse with a configuration, a retrieval that recycles the pooled buffers.  On a correct library this
+// changes no observation; a leak of parser state, configuration or buffers shows up in whatever case comes next.
+var ambientCounter int
+
+var ambientFailing = []string{
+	"$.old[?(@.id.nosuchfn())]", "$.x[?(@.a == 1 && @.b[99999999999999999999])]", "$.p.q[(1+1)]", "$[?(@.a =~ /(/)]",
+	"$.r[?(@.* == 1)]", "$.s[?(@.a == @.b)]", "$.t]", "$.u[?(@.a == 1e)]", "$['\\x']", "$.v[?(@.a.twice() == 2 && @.b.nosuch())]",
+}
+
+func ambientHistory() {
+	ambientCounter++
+	k := ambientCounter
+	func() {
+		defer func() { recover() }()
+		jsonpath.Parse(ambientFailing[k%len(ambientFailing)])
+		if k%3 == 0 {
+			cfg := makeConfig([]string{"twice", "id"}, []string{"cnt", "amax"}, k%2 == 0, nil)
+			jsonpath.Parse("$.a.twice()", cfg)
+		}
+		if k%4 == 0 {
+			jsonpath.Retrieve("$..*", []interface{}{map[string]interface{}{"x": []interface{}{"p", "q", "r"}}, "y", 9.0})
+		}
+		if k%5 == 0 {
+			jsonpath.Retrieve("$[?(@.s == 'a\\tb')]", []interface{}{map[string]interface{}{"s": "atb"}})
+		}
+	}()
+}
+
 // ---------- one case ----------
 
 func runCase(c *caseT) string {
@@ -382,6 +414,8 @@ func runCase(c *caseT) string {
 		return runHist(c)
 	case "conc":
 		return runConc(c)
+	case "cold":
+		return runCold(c)
 	}
 	var b strings.Builder
 	b.WriteString(c.ID)
@@ -392,6 +426,12 @@ func runCase(c *caseT) string {
 		cfgp = &cfg
 	}
 	path := unhex(c.Path)
+	if c.Pre != "" {
+		func() {
+			defer func() { recover() }()
+			jsonpath.Parse(unhex(c.Pre))
+		}()
+	}
 	f, obs, extra := parseObs(path, cfgp)
 	b.WriteString("\tP=" + obs)
 	if extra != "" {
@@ -406,12 +446,20 @@ func runCase(c *caseT) string {
 	docs := make([]interface{}, len(c.Docs))
 	befores := make([]string, len(c.Docs))
 	reported := make([]bool, len(c.Docs))
+	results := make([][]interface{}, len(c.Docs))
+	resultObs := make([]string, len(c.Docs))
 	for i := range c.Docs {
-		doc := buildDoc(c.Docs[i])
+		var doc interface{}
+		if c.Alias {
+			doc = buildDocAliased(c.Docs[i])
+		} else {
+			doc = buildDoc(c.Docs[i])
+		}
 		before := render(doc)
 		docs[i], befores[i] = doc, before
 		rec.take()
 		res, eobs := evalObs(f, doc)
+		results[i], resultObs[i] = res, eobs
 		fmt.Fprintf(&b, "\tR%d=%s", i, eobs)
 		fmt.Fprintf(&b, "\tC%d=%s", i, rec.take())
 		after := render(doc)
@@ -432,6 +480,16 @@ func runCase(c *caseT) string {
 			if !reported[i] {
 				if late := render(docs[i]); late != befores[i] {
 					fmt.Fprintf(&b, "\tM%d=late:%s", i, late)
+				}
+			}
+			// result slices (and whatever user functions handed back) belong to the caller: they must read the same
+			if results[i] != nil && !c.Acc {
+				parts := make([]string, len(results[i]))
+				for k := range results[i] {
+					parts[k] = render(results[i][k])
+				}
+				if now := "ok:[" + strings.Join(parts, ",") + "]"; now != resultObs[i] {
+					fmt.Fprintf(&b, "\tSTALE%d=%s", i, now)
 				}
 			}
 		}
